@@ -1136,3 +1136,511 @@ theorem getConstructorClass_some {env : Env} {st : NsState} {f : Node} {sub : St
     | false => simp [hc] at h
 
 end GIVerif.Naming
+
+namespace GIVerif.Naming
+open GIVerif.Py
+
+/-! ### only public symbols of the current namespace are described -/
+
+/-- a function / constant element carries a C name that does not start with an underscore and
+    that the splitter attributes to the CURRENT namespace -/
+def PublicSym (cfg : Cfg) (n : Node) : Prop :=
+  (n.kind = Kind.function ∨ n.kind = Kind.constant) → (publicSymbolName cfg n.cid).isSome = true
+
+theorem PublicSym_of_kind {cfg : Cfg} {n : Node} (h1 : n.kind ≠ Kind.function) (h2 : n.kind ≠ Kind.constant) :
+    PublicSym cfg n := by
+  intro h; rcases h with h | h
+  · exact absurd h h1
+  · exact absurd h h2
+
+theorem PublicSym_congr {cfg : Cfg} {n m : Node} (hk : m.kind = n.kind) (hc : m.cid = n.cid)
+    (h : PublicSym cfg n) : PublicSym cfg m := by
+  unfold PublicSym at *
+  rw [hk, hc]; exact h
+
+structure NsState.Pub (cfg : Cfg) (st : NsState) : Prop where
+  top : ∀ p ∈ st.names, PublicSym cfg p.2
+  own : ∀ o ∈ st.owned, PublicSym cfg o.fn
+
+theorem Pub_init {cfg : Cfg} : NsState.Pub cfg ⟨[], []⟩ := ⟨by simp, by simp⟩
+
+theorem Pub_remove {cfg : Cfg} {st : NsState} (h : st.Pub cfg) (name : Str) : (st.remove name).Pub cfg :=
+  ⟨fun p hp => h.top p (List.mem_of_mem_filter hp), h.own⟩
+
+theorem Pub_append {cfg : Cfg} {st st' : NsState} {n : Node} (h : st.Pub cfg) (hn : PublicSym cfg n)
+    (ha : st.append n = .ok st') : st'.Pub cfg := by
+  unfold NsState.append at ha
+  split at ha
+  · cases ha
+  · split at ha
+    · cases ha
+    · cases ha
+      refine ⟨?_, h.own⟩
+      intro p hp
+      rcases List.mem_append.mp hp with hp | hp
+      · exact h.top p hp
+      · simp only [List.mem_singleton] at hp; subst hp; exact hn
+
+theorem Pub_appendReplace {cfg : Cfg} {st st' : NsState} {n : Node} (h : st.Pub cfg) (hn : PublicSym cfg n)
+    (ha : st.appendReplace n = .ok st') : st'.Pub cfg :=
+  Pub_append (Pub_remove h _) hn ha
+
+theorem Pub_frame {cfg : Cfg} {st : NsState} (h : st.Pub cfg) (u : Str × Node → Str × Node)
+    (hu : ∀ p, (u p).2.kind = p.2.kind ∧ (u p).2.cid = p.2.cid) :
+    NsState.Pub cfg { st with names := st.names.map u } := by
+  refine ⟨?_, h.own⟩
+  intro p hp
+  obtain ⟨q, hq, rfl⟩ := List.mem_map.mp hp
+  exact PublicSym_congr (hu q).1 (hu q).2 (h.top q hq)
+
+theorem get_mem {st : NsState} {name : Str} {f : Node} (hg : st.get name = some f) :
+    ∃ p ∈ st.names, p.2 = f := by
+  unfold NsState.get at hg
+  cases hf : st.names.find? (fun p => p.1 == name) with
+  | none => rw [hf] at hg; cases hg
+  | some p =>
+    rw [hf] at hg
+    simp only [Option.map_some, Option.some.injEq] at hg
+    exact ⟨p, List.mem_of_find?_eq_some hf, hg⟩
+
+theorem Pub_get {cfg : Cfg} {st : NsState} (h : st.Pub cfg) {name : Str} {f : Node}
+    (hg : st.get name = some f) : PublicSym cfg f := by
+  obtain ⟨p, hp, rfl⟩ := get_mem hg
+  exact h.top p hp
+
+theorem Pub_pairMove {cfg : Cfg} {st : NsState} (h : st.Pub cfg) (fname owner : Str) (role : Role)
+    (newName : Str) (mark : Node → Node) (hm : ∀ n, (mark n).kind = n.kind ∧ (mark n).cid = n.cid) :
+    (st.pairMove fname owner role newName mark).Pub cfg := by
+  unfold NsState.pairMove
+  split
+  · exact h
+  · rename_i f hg
+    have hr := Pub_remove h fname
+    refine ⟨hr.top, ?_⟩
+    intro o ho
+    simp only [NsState.float] at ho
+    rcases List.mem_append.mp ho with ho | ho
+    · exact hr.own o ho
+    · simp only [List.mem_singleton] at ho; subst ho
+      exact PublicSym_congr (n := f) (by rw [(hm _).1]) (by rw [(hm _).2]) (Pub_get h hg)
+
+theorem Pub_pairClone {cfg : Cfg} {st : NsState} (h : st.Pub cfg) (fname owner newName : Str) :
+    (st.pairClone fname owner newName).Pub cfg := by
+  unfold NsState.pairClone
+  split
+  · exact h
+  · rename_i f hg
+    refine ⟨?_, ?_⟩
+    · intro p hp
+      obtain ⟨q, hq, rfl⟩ := List.mem_map.mp hp
+      have := h.top q hq
+      split
+      · exact PublicSym_congr rfl rfl this
+      · exact this
+    · intro o ho
+      rcases List.mem_append.mp ho with ho | ho
+      · exact h.own o ho
+      · simp only [List.mem_singleton] at ho; subst ho
+        exact PublicSym_congr (n := f) rfl rfl (Pub_get h hg)
+
+theorem Pub_pairCompat {cfg : Cfg} {st : NsState} (h : st.Pub cfg) (fname owner newName : Str) :
+    (st.pairCompat fname owner newName).Pub cfg := by
+  unfold NsState.pairCompat
+  split
+  · exact h
+  · rename_i f hg
+    refine ⟨h.top, ?_⟩
+    intro o ho
+    rcases List.mem_append.mp ho with ho | ho
+    · exact h.own o ho
+    · simp only [List.mem_singleton] at ho; subst ho
+      exact PublicSym_congr (n := f) rfl rfl (Pub_get h hg)
+
+theorem Pub_appendNewNode {cfg : Cfg} {st st' : NsState} {n : Node} (h : st.Pub cfg) (hn : PublicSym cfg n)
+    (ha : appendNewNode st n = .ok st') : st'.Pub cfg := by
+  unfold appendNewNode at ha
+  split at ha
+  · split at ha
+    · cases ha; exact h
+    · split at ha
+      · cases ha; exact h
+      · cases ha
+  · exact Pub_append h hn ha
+
+/-- all nodes of the tag namespace are compounds -/
+def TagsCompound (tagNs : List (Str × Node)) : Prop := ∀ p ∈ tagNs, isCompound p.2.kind = true
+
+theorem compound_pub {cfg : Cfg} {n : Node} (h : isCompound n.kind = true) : PublicSym cfg n := by
+  apply PublicSym_of_kind <;> intro hk <;> rw [hk] at h <;> revert h <;> decide
+
+theorem tagLookup_mem {tagNs : List (Str × Node)} {t : Str} {c : Node} (h : tagLookup tagNs t = some c) :
+    ∃ p ∈ tagNs, p.2 = c := by
+  unfold tagLookup at h
+  cases hf : tagNs.find? (fun p => p.1 == t) with
+  | none => rw [hf] at h; cases h
+  | some p =>
+    rw [hf] at h
+    simp only [Option.map_some, Option.some.injEq] at h
+    exact ⟨p, List.mem_of_find?_eq_some hf, h⟩
+
+theorem TagsCompound_tagSet {tagNs : List (Str × Node)} (h : TagsCompound tagNs) (t : Str) (n : Node)
+    (hn : isCompound n.kind = true) : TagsCompound (tagSet tagNs t n) := by
+  unfold tagSet
+  split
+  · intro p hp
+    obtain ⟨q, hq, rfl⟩ := List.mem_map.mp hp
+    split
+    · exact hn
+    · exact h q hq
+  · intro p hp
+    rcases List.mem_append.mp hp with hp | hp
+    · exact h p hp
+    · simp only [List.mem_singleton] at hp; subst hp; exact hn
+
+theorem TagsCompound_registerTag {tagNs : List (Str × Node)} (h : TagsCompound tagNs) (n : Node) :
+    TagsCompound (registerTag tagNs n) := by
+  unfold registerTag
+  split
+  · split
+    · rename_i hc
+      simp only [Bool.and_eq_true] at hc
+      intro p hp
+      rcases List.mem_append.mp hp with hp | hp
+      · exact h p hp
+      · simp only [List.mem_singleton] at hp; subst hp; exact hc.1
+    · exact h
+  · exact h
+
+theorem isCompound_ite (b : Bool) : isCompound (if b then Kind.union else Kind.record) = true := by
+  cases b <;> decide
+
+theorem stripSymbol_pub {cfg : Cfg} {ident name : Str} (hu : startsWith ident ['_'] = false)
+    (hs : stripSymbol cfg ident = .ok name) : (publicSymbolName cfg ident).isSome = true := by
+  unfold publicSymbolName
+  rw [hu, hs]
+  rfl
+
+theorem noNode {cfg : Cfg} : ∀ n, (none : Option Node) = some n → PublicSym cfg n :=
+  fun _ h => nomatch h
+
+theorem oneNode {cfg : Cfg} {m : Node} (hm : PublicSym cfg m) : ∀ n, some m = some n → PublicSym cfg n :=
+  fun n h => by cases h; exact hm
+
+theorem symNode_pub {cfg : Cfg} {tagNs tagNs' : List (Str × Node)} {ident : Str} {mk : Str → Node}
+    {node? : Option Node} (ht : TagsCompound tagNs) (hu : ¬ startsWith ident ['_'] = true)
+    (hmk : ∀ name, (mk name).cid = ident)
+    (h : (match stripSymbol cfg ident with
+          | .error .crash => (.error .crash : Except PipeErr (Option Node × List (Str × Node)))
+          | .error _ => .ok (none, tagNs)
+          | .ok name => .ok (some (mk name), tagNs)) = .ok (node?, tagNs')) :
+    (∀ n, node? = some n → PublicSym cfg n) ∧ TagsCompound tagNs' := by
+  cases hs : stripSymbol cfg ident with
+  | error e =>
+    rw [hs] at h
+    cases e with
+    | crash => cases h
+    | unknown => cases h; exact ⟨noNode, ht⟩
+    | foreign ns => cases h; exact ⟨noNode, ht⟩
+  | ok name =>
+    rw [hs] at h
+    cases h
+    refine ⟨oneNode ?_, ht⟩
+    intro _
+    rw [hmk]
+    exact stripSymbol_pub (by simpa using hu) hs
+
+/-- `_traverse_one` only hands out public nodes and keeps the tag namespace made of compounds -/
+theorem traverseOne_pub {cfg : Cfg} {tagNs tagNs' : List (Str × Node)} {uid : Nat} {d : Decl}
+    {node? : Option Node} (ht : TagsCompound tagNs)
+    (h : traverseOne cfg tagNs uid d = .ok (node?, tagNs')) :
+    (∀ n, node? = some n → PublicSym cfg n) ∧ TagsCompound tagNs' := by
+  cases d with
+  | function ident ret params ma ca =>
+    simp only [traverseOne] at h
+    by_cases hu : startsWith ident ['_'] = true
+    · rw [if_pos hu] at h; cases h; exact ⟨noNode, ht⟩
+    · rw [if_neg hu] at h
+      exact symNode_pub ht hu (fun _ => rfl) h
+  | const ident =>
+    simp only [traverseOne] at h
+    by_cases hu : startsWith ident ['_'] = true
+    · rw [if_pos hu] at h; cases h; exact ⟨noNode, ht⟩
+    · rw [if_neg hu] at h
+      exact symNode_pub ht hu (fun _ => rfl) h
+  | «alias» ident =>
+    simp only [traverseOne] at h
+    split at h
+    · split at h
+      · cases h; exact ⟨noNode, ht⟩
+      · cases h
+        exact ⟨oneNode (PublicSym_of_kind (by simp) (by simp)), ht⟩
+    · split at h
+      · cases h
+      · cases h; exact ⟨noNode, ht⟩
+      · cases h
+        exact ⟨oneNode (PublicSym_of_kind (by simp) (by simp)), ht⟩
+  | callback ident =>
+    simp only [traverseOne] at h
+    split at h
+    · cases h
+    · cases h; exact ⟨noNode, ht⟩
+    · cases h
+      exact ⟨oneNode (PublicSym_of_kind (by simp) (by simp)), ht⟩
+  | enum ident =>
+    simp only [traverseOne] at h
+    split at h
+    · cases h
+    · cases h; exact ⟨noNode, ht⟩
+    · cases h
+      exact ⟨oneNode (PublicSym_of_kind (by simp) (by simp)), ht⟩
+  | typedefCompound ident tag isUnion =>
+    simp only [traverseOne] at h
+    split at h
+    · cases h
+    · cases h; exact ⟨noNode, ht⟩
+    · rename_i name hname
+      split at h
+      · rename_i t c htc
+        have hc : isCompound c.kind = true := by
+          cases tag with
+          | none => simp at htc
+          | some t' =>
+            simp only [Option.bind_some, Option.map_eq_some_iff] at htc
+            obtain ⟨c', hl, he⟩ := htc
+            cases he
+            obtain ⟨p, hp, rfl⟩ := tagLookup_mem hl
+            exact ht p hp
+        split at h
+        · cases h
+          exact ⟨oneNode (compound_pub (isCompound_ite isUnion)), ht⟩
+        · cases h
+          exact ⟨oneNode (compound_pub hc), TagsCompound_tagSet ht _ _ hc⟩
+      · cases h
+        exact ⟨oneNode (compound_pub (isCompound_ite isUnion)), ht⟩
+  | tagCompound tag isUnion =>
+    simp only [traverseOne] at h
+    split at h
+    · rename_i c hl
+      cases h
+      obtain ⟨p, hp, rfl⟩ := tagLookup_mem hl
+      exact ⟨oneNode (compound_pub (ht p hp)), ht⟩
+    · cases h
+      exact ⟨oneNode (compound_pub (isCompound_ite isUnion)), ht⟩
+
+
+structure ParseSt.Pub (cfg : Cfg) (ps : ParseSt) : Prop where
+  ns : ps.ns.Pub cfg
+  tags : TagsCompound ps.tagNs
+
+theorem Pub_parseOne {cfg : Cfg} {ps ps' : ParseSt} {d : Decl} (h : ps.Pub cfg)
+    (hp : parseOne cfg ps d = .ok ps') : ps'.Pub cfg := by
+  unfold parseOne at hp
+  cases ht : traverseOne cfg ps.tagNs ps.next d with
+  | error e => rw [ht] at hp; cases hp
+  | ok r =>
+    obtain ⟨node?, tagNs⟩ := r
+    rw [ht] at hp
+    obtain ⟨hnode, htags⟩ := traverseOne_pub h.tags ht
+    cases node? with
+    | none => cases hp; exact ⟨h.ns, htags⟩
+    | some node =>
+      simp only at hp
+      by_cases hn : node.name.isEmpty = true
+      · rw [if_pos hn] at hp; cases hp; exact ⟨h.ns, TagsCompound_registerTag htags _⟩
+      · rw [if_neg hn] at hp
+        cases ha : appendNewNode ps.ns node with
+        | error e => rw [ha] at hp; cases hp
+        | ok ns =>
+          rw [ha] at hp; cases hp
+          exact ⟨Pub_appendNewNode h.ns (hnode node rfl) ha, TagsCompound_registerTag htags _⟩
+
+theorem Pub_parseDecls {cfg : Cfg} : ∀ (ds : List Decl) (ps ps' : ParseSt), ps.Pub cfg →
+    parseDecls cfg ps ds = .ok ps' → ps'.Pub cfg := by
+  intro ds
+  induction ds with
+  | nil => intro ps ps' h hp; simp only [parseDecls] at hp; cases hp; exact h
+  | cons d ds ih =>
+    intro ps ps' h hp
+    simp only [parseDecls] at hp
+    cases h1 : parseOne cfg ps d with
+    | error e => rw [h1] at hp; cases hp
+    | ok ps1 =>
+      rw [h1] at hp
+      exact ih ps1 ps' (Pub_parseOne h h1) hp
+
+theorem Pub_promoteTags {cfg : Cfg} : ∀ (l : List (Str × Node)) (ns ns' : NsState), ns.Pub cfg →
+    TagsCompound l → promoteTags cfg ns l = .ok ns' → ns'.Pub cfg := by
+  intro l
+  induction l with
+  | nil => intro ns ns' h _ hp; simp only [promoteTags] at hp; cases hp; exact h
+  | cons x xs ih =>
+    intro ns ns' h hl hp
+    obtain ⟨tag, c⟩ := x
+    have hxs : TagsCompound xs := fun p hp => hl p (List.mem_cons_of_mem _ hp)
+    have hc : isCompound c.kind = true := hl (tag, c) (List.mem_cons_self)
+    simp only [promoteTags] at hp
+    split at hp
+    · exact ih ns ns' h hxs hp
+    · split at hp
+      · cases hp
+      · exact ih ns ns' h hxs hp
+      · split at hp
+        · cases hp
+        · rename_i ns1 hns1
+          exact ih ns1 ns' (Pub_appendNewNode h (compound_pub (by exact hc)) hns1) hxs hp
+
+theorem Pub_parse {cfg : Cfg} {decls : List Decl} {ns : NsState} (hp : parse cfg decls = .ok ns) :
+    ns.Pub cfg := by
+  unfold parse at hp
+  split at hp
+  · cases hp
+  · rename_i ps hps
+    have := Pub_parseDecls decls _ ps ⟨Pub_init, by intro p hp; cases hp⟩ hps
+    exact Pub_promoteTags _ _ _ this.ns this.tags hp
+
+theorem Pub_dumpOne {cfg : Cfg} {st st' : NsState × List DumpEntry × Nat} {e : DumpEntry} (h : st.1.Pub cfg)
+    (hd : dumpOne cfg st e = .ok st') : st'.1.Pub cfg := by
+  unfold dumpOne at hd
+  cases hn : dumpName cfg e with
+  | error x => rw [hn] at hd; cases hd
+  | ok r =>
+    obtain ⟨pfx, name⟩ := r
+    rw [hn] at hd
+    simp only at hd
+    by_cases hb : (e.kind == DumpKind.boxed) = true
+    · rw [if_pos hb] at hd; cases hd; exact h
+    · rw [if_neg hb] at hd
+      cases ha : st.1.appendReplace (dumpNode st.1 st.2.2 e pfx name) with
+      | error x => rw [ha] at hd; cases hd
+      | ok ns' =>
+        rw [ha] at hd; cases hd
+        refine Pub_appendReplace h ?_ ha
+        apply PublicSym_of_kind <;> (unfold dumpNode; dsimp only; split <;> simp)
+
+theorem Pub_pairBoxed {cfg : Cfg} {st st' : NsState × Nat} {e : DumpEntry} (h : st.1.Pub cfg)
+    (hd : pairBoxed cfg st e = .ok st') : st'.1.Pub cfg := by
+  unfold pairBoxed at hd
+  split at hd
+  · cases hd
+  · rename_i pfx name _
+    split at hd
+    · split at hd
+      · cases hd
+      · rename_i ns' hns'
+        cases hd
+        exact Pub_append h (PublicSym_of_kind (by simp) (by simp)) hns'
+    · split at hd
+      · cases hd
+        exact Pub_frame h _ (by intro p; split <;> simp)
+      · cases hd; exact h
+
+theorem Pub_removeGetType {cfg : Cfg} {st st' : NsState} {gt : Str} (h : st.Pub cfg)
+    (hr : removeGetType cfg st gt = .ok st') : st'.Pub cfg := by
+  unfold removeGetType at hr
+  split at hr
+  · split at hr
+    · split at hr
+      · cases hr; exact Pub_remove h _
+      · cases hr
+    · cases hr
+  · cases hr
+
+theorem Pub_applyDump {cfg : Cfg} {ns ns' : NsState} {dump : List DumpEntry} {next : Nat} (h : ns.Pub cfg)
+    (hd : applyDump cfg ns dump next = .ok ns') : ns'.Pub cfg := by
+  unfold applyDump at hd
+  split at hd
+  · cases hd
+  · rename_i st1 h1
+    split at hd
+    · cases hd
+    · rename_i st2 h2
+      have i1 : st1.1.Pub cfg :=
+        foldE_inv (fun s => s.1.Pub cfg) (dumpOne cfg) (fun s a s' hs hf => Pub_dumpOne hs hf) dump _ st1 h h1
+      have i2 : st2.1.Pub cfg :=
+        foldE_inv (fun s => s.1.Pub cfg) (pairBoxed cfg) (fun s a s' hs hf => Pub_pairBoxed hs hf) _ _ st2 i1 h2
+      exact foldE_inv (NsState.Pub cfg) (removeGetType cfg) (fun s a s' hs hf => Pub_removeGetType hs hf)
+        _ _ ns' i2 hd
+
+theorem Pub_resolveParents {env : Env} {st : NsState} (h : st.Pub env.cfg) :
+    (resolveParents env st).Pub env.cfg :=
+  Pub_frame h _ (by intro p; split <;> simp)
+
+theorem Pub_applyForeign {cfg : Cfg} {l : List Str} {st : NsState} (h : st.Pub cfg) :
+    (applyForeign l st).Pub cfg :=
+  Pub_frame h _ (by intro p; split <;> simp)
+
+theorem Pub_setupMethod {env : Env} {st : NsState} {f : Node} {sub : Str} (h : st.Pub env.cfg) :
+    (setupMethod env st f sub).Pub env.cfg := by
+  unfold setupMethod
+  split
+  · exact h
+  · split
+    · exact h
+    · dsimp only
+      split
+      · exact Pub_pairCompat h _ _ _
+      · exact Pub_pairMove h _ _ _ _ _ (by intro n; simp)
+
+theorem Pub_pairStaticMethod {cfg : Cfg} {st st' : NsState} {f : Node} {sub : Str} (h : st.Pub cfg)
+    (hp : pairStaticMethod st f sub = some st') : st'.Pub cfg := by
+  unfold pairStaticMethod at hp
+  split at hp
+  · cases hp
+  · split at hp
+    · cases hp
+    · split at hp
+      · cases hp
+      · split at hp
+        · cases hp
+          exact Pub_pairMove h _ _ _ _ _ (by intro n; simp)
+        · split at hp
+          · cases hp
+            exact Pub_pairClone h _ _ _
+          · cases hp
+
+theorem Pub_pairFunction {env : Env} {st st' : NsState} {f : Node} (h : st.Pub env.cfg)
+    (hp : pairFunction env st f = .ok st') : st'.Pub env.cfg := by
+  unfold pairFunction at hp
+  split at hp
+  · cases hp; exact h
+  · split at hp
+    · split at hp
+      · split at hp
+        · cases hp
+        · split at hp
+          · cases hp
+            exact Pub_pairMove h _ _ _ _ _ (by intro n; simp)
+          · cases hp; exact h
+        · split at hp
+          · cases hp; exact Pub_setupMethod h
+          · cases hp
+            cases hs : pairStaticMethod st f _ with
+            | none => simpa [hs] using h
+            | some s1 => simpa [hs] using Pub_pairStaticMethod h hs
+      · cases hp; exact h
+    · cases hp; exact h
+
+theorem Pub_pairAll {env : Env} {st st' : NsState} (h : st.Pub env.cfg) (hp : pairAll env st = .ok st') :
+    st'.Pub env.cfg :=
+  foldE_inv (NsState.Pub env.cfg) (pairFunction env) (fun _ _ _ hs hf => Pub_pairFunction hs hf) _ _ st' h hp
+
+theorem Pub_describe {inp : Input} {st : NsState} (hd : describe inp = .ok st) : st.Pub inp.env.cfg := by
+  unfold describe at hd
+  split at hd
+  · cases hd
+  · rename_i ns0 h0
+    split at hd
+    · cases hd
+    · rename_i ns1 h1
+      have i0 : ns0.Pub inp.env.cfg := Pub_parse h0
+      have i1 : ns1.Pub inp.env.cfg := by
+        split at h1
+        · exact Pub_applyDump i0 h1
+        · cases h1; exact i0
+      exact Pub_pairAll (Pub_applyForeign (Pub_resolveParents i1)) hd
+
+/-- which kinds get a static-function clone instead of a move -/
+def isCloneOwnerKind (k : Kind) : Bool :=
+  k == .iface || k == .record || k == .union || k == .boxed || k == .enum
+
+end GIVerif.Naming
